@@ -14,8 +14,12 @@ Shape dict keys
   xy/bubble:   lens=[points per series], vk=<value kind>
   optional number formats: nf (chart data level), snf (first series), cnf (categories)
 
-Label kinds: str, int, float, date_pre (before 1900-03-01 for n<=3; n=300 crosses the phantom leap day),
+Label kinds: str, int (small), float (short), int_wide / float_wide (numbers that need 7..17 significant
+digits: yyyymmdd-style keys, 10^6+1, 2^31, 12-digit counts, 8-digit fractions, 0.1+0.2; every one prints
+without an exponent), date_pre (before 1900-03-01 for n<=3; n=300 crosses the phantom leap day),
 date_post (1900-03-01 and later), datetime (midnight), datetime_noon (C08 only).
+'slen' = per-series point counts of a category shape when they differ from the leaf count (RAGGED data:
+empty / shorter / equal / longer series next to each other, see ragged_shapes).
 `None` labels are NOT enumerated: `add_category` documents "a string, a number, a datetime.date, or
 datetime.datetime object" only.
 """
@@ -29,7 +33,11 @@ STR_POOL = ["West", "a&b <c>", "Ünï ©", " lead", "x'\"y", "日本"]
 NAME_POOL = ["Series 1", "S&P <500>", "Ünï © 3"]
 FLOATS = [1.5, 1e-07, -0.0, -2.25, 123456789.125, 1e+20]
 
-LABEL_KINDS = ["str", "int", "float", "date_pre", "date_post", "datetime"]
+LABEL_KINDS = ["str", "int", "float", "int_wide", "float_wide", "date_pre", "date_post", "datetime"]
+NUMERIC_LABEL_KINDS = ("int", "float", "int_wide", "float_wide")
+# numeric labels whose shortest exact decimal text needs 7..17 significant digits (none prints with an exponent)
+WIDE_INTS = [20240131, 1000001, 86400001, -1234567, 2147483648, 999999999999]
+WIDE_FLOATS = [1234.5678, 0.12345678, -98765.4321, 123456789.125, 0.1 + 0.2, 1.0000001]
 CAT_COUNTS = [1, 2, 3, 300]
 VALUE_KINDS = ["int", "float", "holes", "empty"]
 NUMBER_FORMATS = ["#,##0.00", "0.0%", '"$"#,##0', "[<100]0;0"]
@@ -69,6 +77,10 @@ def label_for(kind, i):
         return i - 1
     if kind == "float":
         return i * 1.25 + 0.5
+    if kind == "int_wide":
+        return WIDE_INTS[i % len(WIDE_INTS)] + 7 * (i // len(WIDE_INTS))
+    if kind == "float_wide":
+        return WIDE_FLOATS[i % len(WIDE_FLOATS)] + (i // len(WIDE_FLOATS))
     if kind == "date_pre":
         return datetime.date(1900, 2, 26) + datetime.timedelta(days=i)
     if kind == "date_post":
@@ -292,7 +304,7 @@ def model(spec, date1904=False) -> Model:
             labs = [label_for(spec["lab"], i) for i in range(spec["n"])]
             if spec["lab"] == "str":
                 m.leaves = [("s", x) for x in labs]
-            elif spec["lab"] in ("int", "float"):
+            elif spec["lab"] in NUMERIC_LABEL_KINDS:
                 m.leaves = [("n", x) for x in labs]
             else:
                 m.date_labels = labs
@@ -426,6 +438,52 @@ def apply_delta(cd, before, after):
 
 # ---- enumerations ---------------------------------------------------------------------------------------
 
+RAGGED_TREE = [[[], []], [[], []]]  # 2 top-level categories x 2 sub-categories = 4 leaves
+
+
+def ragged_shapes(thorough):
+    """Category data whose series do NOT all have as many points as there are leaf categories: every tuple of
+    per-series point counts over a length alphabet that holds 0, 1, fewer than, exactly, and more than the leaf
+    count. Returns (list of specs, closed-form size).
+      flat, 3 string categories:  lengths {0..5}^ns,              ns in {1,2} (thorough: {1,2,3})
+      2-level forest, 4 leaves:   lengths {0,2,4,6}^ns (quick) | {0..6}^ns (thorough), ns in {1,2}
+    Values are 'mixed' (ints, floats, None holes), so a hole can sit inside the surplus tail too."""
+    out = []
+    flat_lens, flat_ns = list(range(6)), ((1, 2, 3) if thorough else (1, 2))
+    tree_lens, tree_ns = (list(range(7)) if thorough else [0, 2, 4, 6]), (1, 2)
+    for ns in flat_ns:
+        for lens in itertools.product(flat_lens, repeat=ns):
+            out.append({"k": "cat", "lab": "str", "n": 3, "ns": ns, "vk": "mixed", "slen": list(lens)})
+    for ns in tree_ns:
+        for lens in itertools.product(tree_lens, repeat=ns):
+            out.append({"k": "cat", "tree": RAGGED_TREE, "ns": ns, "vk": "mixed", "slen": list(lens)})
+    size = sum(len(flat_lens) ** ns for ns in flat_ns) + sum(len(tree_lens) ** ns for ns in tree_ns)
+    return out, size
+
+
+def is_ragged(spec):
+    return spec["k"] == "cat" and spec.get("slen") is not None
+
+
+REPLACE_BASE = {"k": "cat", "lab": "str", "n": 2, "ns": 1, "vk": "int"}
+WIDE_REPLACE_COUNTS = [1, 7]  # 7 labels walk through the whole 6-member alphabet and wrap once
+
+
+def replace_extra_shapes(kind, thorough):
+    """Data given to ONE replace_data on a chart created from REPLACE_BASE (1 series: the first new series
+    re-uses the surviving c:ser, a second/third one is cloned), beyond the six history shapes: every ragged
+    shape and the wide numeric label kinds. Returns (list of specs, closed-form size). Empty for XY/bubble
+    (their series lengths are independent anyway and are enumerated by the creation/history shapes)."""
+    if kind != "cat":
+        return [], 0
+    out, size = ragged_shapes(thorough)
+    out = list(out)
+    for lab in ("int_wide", "float_wide"):
+        for n in WIDE_REPLACE_COUNTS:
+            out.append({"k": "cat", "lab": lab, "n": n, "ns": 2, "vk": "float"})
+    return out, size + 2 * len(WIDE_REPLACE_COUNTS)
+
+
 def series_counts(thorough, allow_zero=True):
     counts = list(range(0, 51)) if thorough else [0, 1, 2, 3, 26, 27]
     return counts if allow_zero else [c for c in counts if c > 0]
@@ -465,6 +523,10 @@ def creation_shapes(kind, thorough, allow_zero=True):
         # E. the empty string is a string too
         out.append({"k": "cat", "labels": ["North", "", "South"], "ns": 1, "vk": "int"})
         size += 1
+        # F. ragged data: per-series point counts that differ from the leaf count (and from each other)
+        rag, rag_size = ragged_shapes(thorough)
+        out.extend(rag)
+        size += rag_size
         return out, size
     # xy / bubble
     sc = series_counts(thorough, allow_zero)
